@@ -8,23 +8,25 @@ From OIDC Require Import Lib C04_OP C04_Ledger C04_Hist C07_spec C07_Chain C07_p
 
 (* success => the presented token is live in the storage, the caller proves the client
    it belongs to - the client named in the earlier response that handed the token out -,
-   that client is registered for the refresh grant and the provider flag is on *)
+   that client is registered for the refresh grant - and the registration has not been
+   withdrawn since (DropRefresh) - and the provider flag is on; for every placement pl of
+   the parameters (body / query string) *)
 Theorem C07_bound : forall (H : string -> string) (cf : cfg) ops h s,
   exec H cf ops = (h, s) ->
-  forall h1 e h2 cr rt scopes t,
-    h = h1 ++ e :: h2 -> e_op e = TokenRefresh cr rt scopes -> e_out e = OTokens t ->
+  forall h1 e h2 pl cr rt scopes t,
+    h = h1 ++ e :: h2 -> e_op e = TokenRefresh pl cr rt scopes -> e_out e = OTokens t ->
   exists n r,
     rt = Some n /\ find_rt (e_pre e) n = Some r
     /\ cred_proves cf cr (r_client r) = true
-    /\ client_refresh cf (r_client r) = true
+    /\ client_refresh cf (r_client r) = true /\ ~ In (r_client r) (norefresh (e_pre e))
     /\ f_refresh cf = true
     /\ (exists e0 t0, In e0 h1 /\ e_out e0 = OTokens t0 /\ t_rt t0 = Some n /\ t_azp t0 = r_client r).
 Proof. exact bound. Qed.
 Print Assumptions C07_bound.
 
 (* success => requested and granted scopes lie within the token's scopes *)
-Theorem C07_subset_success : forall (H : string -> string) (cf : cfg) r s cr rt scopes s' t,
-  step H cf r s (TokenRefresh cr rt scopes) = (s', OTokens t) ->
+Theorem C07_subset_success : forall (H : string -> string) (cf : cfg) pl r s cr rt scopes s' t,
+  step H cf r s (TokenRefresh pl cr rt scopes) = (s', OTokens t) ->
   exists n r0, rt = Some n /\ find_rt s n = Some r0
     /\ subset scopes (r_scopes r0) = true /\ subset (t_scope t) (r_scopes r0) = true.
 Proof. exact success_subset. Qed.
@@ -32,16 +34,16 @@ Print Assumptions C07_subset_success.
 
 (* requested not within granted: a request that would succeed without a scope parameter
    is answered invalid_scope and the storage is unchanged *)
-Theorem C07_subset : forall (H : string -> string) (cf : cfg) r s cr n rt scopes s0 t0,
-  step H cf r s (TokenRefresh cr (Some n) []) = (s0, OTokens t0) ->
+Theorem C07_subset : forall (H : string -> string) (cf : cfg) pl r s cr n rt scopes s0 t0,
+  step H cf r s (TokenRefresh pl cr (Some n) []) = (s0, OTokens t0) ->
   find_rt s n = Some rt -> scopes <> [] -> subset scopes (r_scopes rt) = false ->
-  step H cf r s (TokenRefresh cr (Some n) scopes) = (s, err r E_scope).
+  step H cf r s (TokenRefresh pl cr (Some n) scopes) = (s, err r E_scope).
 Proof. exact subset_refused. Qed.
 Print Assumptions C07_subset.
 
 (* any refused refresh leaves the storage unchanged (nothing is issued) *)
-Theorem C07_refusal_keeps_state : forall (H : string -> string) (cf : cfg) r s cr rt scopes s' x,
-  step H cf r s (TokenRefresh cr rt scopes) = (s', x) -> is_tokens x = false -> s' = s.
+Theorem C07_refusal_keeps_state : forall (H : string -> string) (cf : cfg) pl r s cr rt scopes s' x,
+  step H cf r s (TokenRefresh pl cr rt scopes) = (s', x) -> is_tokens x = false -> s' = s.
 Proof. exact refusal_keeps_state. Qed.
 Print Assumptions C07_refusal_keeps_state.
 
@@ -49,8 +51,8 @@ Print Assumptions C07_refusal_keeps_state.
    token (id above every stored one), and the response carries that one *)
 Theorem C07_rotation : forall (H : string -> string) (cf : cfg) ops h s,
   exec H cf ops = (h, s) ->
-  forall h1 e h2 cr rt scopes t,
-    h = h1 ++ e :: h2 -> e_op e = TokenRefresh cr rt scopes -> e_out e = OTokens t ->
+  forall h1 e h2 pl cr rt scopes t,
+    h = h1 ++ e :: h2 -> e_op e = TokenRefresh pl cr rt scopes -> e_out e = OTokens t ->
   exists n m new,
     rt = Some n /\ t_rt t = Some m
     /\ m = S (next (e_pre e)) /\ (forall x, In x (rtoks (e_pre e)) -> r_id x < m)
@@ -73,10 +75,10 @@ Print Assumptions C07_monotone.
 (* a rotated token fails, and the attempt changes nothing *)
 Theorem C07_replay : forall (H : string -> string) (cf : cfg) ops h s,
   exec H cf ops = (h, s) ->
-  forall h1 e1 h2 e2 h3 n cr1 sc1 cr2 sc2,
+  forall h1 e1 h2 e2 h3 n pl1 cr1 sc1 pl2 cr2 sc2,
     h = h1 ++ e1 :: h2 ++ e2 :: h3 ->
-    e_op e1 = TokenRefresh cr1 (Some n) sc1 -> is_tokens (e_out e1) = true ->
-    e_op e2 = TokenRefresh cr2 (Some n) sc2 ->
+    e_op e1 = TokenRefresh pl1 cr1 (Some n) sc1 -> is_tokens (e_out e1) = true ->
+    e_op e2 = TokenRefresh pl2 cr2 (Some n) sc2 ->
     is_tokens (e_out e2) = false /\ e_post e2 = e_pre e2.
 Proof. exact replay. Qed.
 Print Assumptions C07_replay.
